@@ -306,6 +306,10 @@ def execute(b: Built, op: dict, src: Built | None = None, foreign_tree=None):
                     )
             elif name == "add_tree":
                 r = b.node(op["p"]).add_child(src.tree, before=_pos_arg(b, op["pos"]), deep=op["deep"])
+            elif name == "add_empty_tree":
+                r = b.node(op["p"]).add_child(fl.new_tree(), before=_pos_arg(b, op["pos"]), deep=op["deep"])
+            elif name == "empty_tree_copy_to":
+                r = fl.new_tree().copy_to(b.node(op["p"]), deep=op["deep"])
             elif name == "tree_copy_to":
                 r = src.tree.copy_to(b.node(op["p"]), deep=op["deep"])
             elif name == "copy_children_to":
